@@ -199,6 +199,36 @@ def run(res, tier, seed, shard, nshards):
                     # well-formed control: the same bytes with the sequence kept together
                     check_validator(res, W, pre + head + tail + gap, "block-structure")
                     res.count("block_structure_strings", 2)
+    # 3b. very long payloads (a validator may switch strategy above some size): the last code point cut short, an ill-formed sequence
+    # deep inside, and well-formed controls.  The reference for these is CPython's strict decoder (agrees with the DFA, see self-check).
+    sizes = [(1 << 24) + 3] if tier == "quick" else [(1 << 20) + 1, (1 << 22) + 1, (1 << 24) + 1, (1 << 24) + 3, (1 << 25) + 5]
+    bigs = []
+    for n in sizes:
+        body = ("abcdefghij€Ω😀" * (n // 19 + 1)).encode()[: n - 4]
+        while (body[-1] & 0xC0) == 0x80 or body[-1] >= 0xC0:  # end on a character boundary
+            body = body[:-1]
+        for tail, tag in ((b"z\xe2\x82", "truncated-3"), (b"zz\xf0\x9f", "truncated-4"), ("z€".encode(), "valid"), (b"\xed\xa0\x80z", "surrogate-at-end")):
+            bigs.append((body + tail, tag))
+        mid = len(body) // 2
+        while (body[mid] & 0xC0) == 0x80:
+            mid += 1
+        bigs.append((body[:mid] + b"\xc0\xaf" + body[mid:], "overlong-inside"))
+    for bi, (data, tag) in enumerate(bigs):
+        if bi % nshards != shard:
+            continue
+        exp = U.is_valid_cpython(data)
+        try:
+            got = W._utils.validate_utf8(data)
+        except Exception as e:  # noqa
+            res.violation("validator-raised", f"validate_utf8(<{len(data)} bytes, {tag}>) raised {type(e).__name__}", {"gen": "very-long", "len": len(data), "tag": tag},
+                          exc_type=type(e).__name__, input_class=tag)
+            continue
+        res.count("validator_calls")
+        res.count("very_long_payloads_validated")
+        res.case(("very-long", len(data), tag), nontrivial=True)
+        if bool(got) != exp:
+            res.violation("validator-mismatch", f"validate_utf8(<{len(data)} bytes ending in {data[-4:].hex()}, {tag}>) = {got!r}, reference says {exp}",
+                          {"gen": "very-long", "len": len(data), "tag": tag}, expected=exp, input_class=tag)
     # 4. receive path -----------------------------------------------------------
     with H.ambient((shard, "C06"), res, dims=("multithread", "tls", "dispatcher", "high_fd")):
         recv_path(res, W, tier, rng, shard, nshards)
@@ -272,6 +302,40 @@ def app_path(res, W, tier, rng, shard, nshards):
                     if idx % nshards != shard or (tier == "quick" and idx % 3):
                         continue
                     app_case(res, W, appsim, data, frags, cont_cb, skip, valid, cls)
+        if len(data) <= 123:
+            for cbs_kind in ("all", "no-message-callbacks", "only-on_close", "with-cont"):
+                idx += 1
+                if idx % nshards == shard:
+                    app_close_reason_case(res, W, appsim, data, cbs_kind, valid, cls)
+
+
+def app_close_reason_case(res, W, appsim, data, cbs_kind, valid, cls):
+    """a close frame whose reason is `data`, received by a WebSocketApp with this or that set of callbacks (validation on)"""
+    cbs = {"all": ["on_open", "on_message", "on_data", "on_error", "on_close"], "no-message-callbacks": ["on_open", "on_error", "on_close"],
+           "only-on_close": ["on_close"], "with-cont": ["on_open", "on_message", "on_cont_message", "on_error", "on_close"]}[cbs_kind]
+    script = [(0.5, "frames", R.encode(R.TEXT, b"hi")), (1.0, "close", b"\x03\xe8" + data)]
+
+    def scen():
+        H.reset_process_state()
+        run = appsim.AppRun([dict(outcome="ok", script=script)], callbacks=cbs, last_repeats=False)
+        run.run_forever()
+        return run
+
+    run, _ = H.in_sim(scen, horizon=200, watchdog=60)
+    res.count("app_close_reason_cases")
+    res.case(("app-close", data, cbs_kind), nontrivial=True)
+    case = {"gen": "app-close-reason", "reason": data, "callbacks": cbs_kind}
+    closes = [a for (t, n, a, ci, ac) in run.trace if n == "on_close"]
+    if valid:
+        if closes != [(1000, data.decode("utf-8"))]:
+            res.violation("recv-mismatch", f"app path ({cbs_kind}): close frame 1000 with well-formed reason {data.hex()} ({cls}): on_close got {closes!r}", case,
+                          input_class=cls, skip=False, path="app-close", outcome="not-delivered")
+    else:
+        if any(len(a) == 2 and a[0] == 1000 for a in closes):
+            res.violation("recv-mismatch", f"app path ({cbs_kind}): close frame with ill-formed reason {data.hex()} ({cls}) was accepted: on_close{closes[0]!r}", case,
+                          input_class=cls, skip=False, path="app-close", outcome="delivered")
+        else:
+            res.count("app_ill_formed_not_delivered")
 
 
 def app_case(res, W, appsim, data, frags, cont_cb, skip, valid, cls):
